@@ -20,7 +20,7 @@ func init() {
 	register(&explore.Prop{
 		ID: "C14", Level: levelMC, Explorer: "E2 path mode (build histories, deterministic pool, owned map order) + E4 schedule explorer (concurrent builders)",
 		Instr: true,
-		Rule: "instrumented build: sync.Pool replaced by a deterministic LIFO pool, every `range` over a map iterates in an order the explorer chooses. Histories: a menu of 14 batches chosen to leave different residue in the pooled builder (more/fewer fields, terms, postings, locations; doc values on/off; larger then smaller; composite fields naming the same field under different schemas; a 41-field batch whose later documents carry only 2-3 of the fields; a batch in which every field including `_id` has doc values; a build that FAILS with an unknown chunk mode); every history of length <=3 (thorough <=4) followed by every target, under chunk modes {1025, 2}; HIST-LARGE: histories [big], [big, m] (thorough also [m, big]) with big = a 1100-document batch (thorough also 2100: several 1024-document chunks) followed by every target; map order: for every map-range site reached, reverse and rotated orders as single deviations; schedules: 2 threads x 2 builds and 3 threads x 1 build of different batches at preemption bound 2 (scheduling points at pool/once operations and written package-level state); " +
+		Rule: "instrumented build: sync.Pool replaced by a deterministic LIFO pool, every `range` over a map iterates in an order the explorer chooses. Histories: a menu of 15 batches chosen to leave different residue in the pooled builder (more/fewer fields, terms, postings, locations; doc values on/off; larger then smaller; composite fields naming the same field under different schemas; a 41-field batch whose later documents carry only 2-3 of the fields; a batch in which every field including `_id` has doc values; a 300-word dictionary of pseudo-random words; a build that FAILS with an unknown chunk mode); every history of length <=3 (thorough <=4) followed by every target, under chunk modes {1025, 2}; HIST-LARGE: histories [big], [big, m] (thorough also [m, big]) with big = a 1100-document batch or a 5000-word dictionary (thorough also 2100 documents) followed by every target; map order: for every map-range site reached, reverse and rotated orders as single deviations; schedules: 2 threads x 2 builds and 3 threads x 1 build of different batches at preemption bound 2 (scheduling points at pool/once operations and written package-level state); " +
 			"oracle: bytes(target | history, order, schedule) == bytes(target | cold start, sorted order, alone); non-trivial = the pool held a recycled builder when the target build started (VerifInterimPool + PoolLen) / schedule has a preemption",
 		Assumptions: []string{"the deterministic pool models sync.Pool as LIFO reuse; the real pool may also drop objects (equivalent to a cold start, which is the baseline)", "bounded histories/menus (DESIGN.md 5 C14)", "preemption bound 2, <=3 threads; statement-level atomicity"},
 		Budget:      qBudget, Run: runC14,
@@ -67,6 +67,7 @@ func c14Menu() [][]model.Doc {
 		composite([]string{"n"}),
 		composite([]string{"a", "b", "n"}),
 		wide(40),
+		c14Terms(300), // a dictionary of 300 pseudo-random words (the FST builder's node registry matters)
 		// every field including `_id` indexes doc values (the per-document doc-value scratch state is
 		// used from the very first field on)
 		{
@@ -94,6 +95,36 @@ func wide(n int) []model.Doc {
 	d2 := model.Doc{gen.IDField("w", 2), fld(31, 2), fld(2, 2), fld(16, 2)} // mixed order
 	d3 := model.Doc{gen.IDField("w", 3), fld(5, 3), fld(5, 3), fld(38, 3)}  // a repeated field
 	return []model.Doc{d0, d1, d2, d3}
+}
+
+// c14Terms: two documents sharing a dictionary of n distinct pseudo-random words of 3..8 letters
+// over an 8-letter alphabet (a fixed linear congruential sequence: deterministic): thousands of
+// shared suffixes and prefixes, so that the FST builder's node registry - its size, its evictions -
+// decides which nodes are shared.
+func c14Terms(n int) []model.Doc {
+	x := uint32(n)*2654435761 + 14
+	next := func(m int) int {
+		x = x*1664525 + 1013904223
+		return int((x >> 16) % uint32(m))
+	}
+	seen := map[string]bool{}
+	var t0, t1 []model.Term
+	for len(t0) < n {
+		b := make([]byte, 3+next(6))
+		for j := range b {
+			b[j] = byte('a' + next(8))
+		}
+		if seen[string(b)] {
+			continue
+		}
+		seen[string(b)] = true
+		t := model.Term{T: string(b), Freq: 1}
+		t0 = append(t0, t)
+		if len(t0)%3 == 0 {
+			t1 = append(t1, t)
+		}
+	}
+	return []model.Doc{{gen.IDField("t", 0), {N: "a", Len: len(t0), Terms: t0}}, {gen.IDField("t", 1), {N: "a", Len: len(t1), Terms: t1}}}
 }
 
 // c14Big: n documents with postings, locations, a doc-value field and stored values in every third.
@@ -203,7 +234,7 @@ func runC14(c *explore.Ctx) {
 		// HIST-LARGE: a recycled builder that has seen a batch spanning several 1024-document chunks
 		// (per-field coders, chunk tables and size estimates grown for it) followed by small batches
 		{
-			bigs := [][]model.Doc{c14Big(1100)}
+			bigs := [][]model.Doc{c14Big(1100), c14Terms(5000)}
 			if c.Thorough() {
 				bigs = append(bigs, c14Big(2100))
 			}
